@@ -215,8 +215,8 @@ def handleTypst (args : List String) : String :=
     | _, _ => "bad-op"
   | _ => "bad-op"
 
-/-- `typok | tree | cps` → `ok t a o`: the assumption monitors `TreeOK`, `NoAlias`, `InOrder` of
-the Typst theorems, evaluated by the model's own definitions on the real tree -/
+/-- `typok | tree | cps` → `ok t a o s`: the assumption monitors `TreeOK`, `NoAlias`, `InOrder`,
+`RangesSolid` (w24) of the Typst theorems, evaluated by the model's own definitions on the real tree -/
 def handleTypOk (args : List String) : String :=
   match splitAt "|" args with
   | [[], tw, cs] =>
@@ -224,7 +224,7 @@ def handleTypOk (args : List String) : String :=
     | some top, some src =>
       let b := fun (x : Bool) => if x then "1" else "0"
       let E := envOfSrc ⟨fun _ => false, fun _ => false, fun _ => false⟩ src
-      s!"ok {b (treesOK E.bs 0 E.bs.length top)} {b (nodupRanges top.ranges && noAliasL top)} {b (inOrderL E top 0).isSome}"
+      s!"ok {b (treesOK E.bs 0 E.bs.length top)} {b (nodupRanges top.ranges && noAliasL top)} {b (inOrderL E top 0).isSome} {b (rangesSolid E.bs top)}"
     | _, _ => "bad-op"
   | _ => "bad-op"
 
@@ -246,6 +246,18 @@ def handleHtmlClampT (args : List String) : String :=
     match ts.mapM Mask.parseTok with
     | some toks => Mask.showToks (.ok (htmlSpaceClamp toks))
     | none => "bad-op"
+  | _ => "bad-op"
+
+/-- `htmlparse | cp:flags … | s:e …` → the tokens of `HtmlParser::default().parse`: `htmlParse` over
+the text and the mask the real `TreeSitterMasker` computed for it (data), the inner parser being the
+model's own `PlainEnglish` (`plainInner`: class flags from the text's `cp:flags` words) -/
+def handleHtmlParse (args : List String) : String :=
+  match splitAt "|" args with
+  | [[], tx, rs] =>
+    match tx.mapM Lex.parseCh, rs.mapM Mask.parseSpan with
+    | some chs, some mask =>
+      Mask.showToks (htmlParseSrc (Lex.clsOf (Lex.dedupTab chs)) (chs.map (·.1)) mask)
+    | _, _ => "bad-op"
   | _ => "bad-op"
 
 end Harper.Driver.Typst
